@@ -195,6 +195,12 @@ class TaskController(Target):
             waited0 = binop('-', st.clock.times[0], st.last_launched)
             cl.append(('runs-after-waiting-20s-for-finished-producers',
                        Implies(And(consume, g['first_pd'], compare('>', waited0, 20)), executed)))
+        # "output since lastLaunched" is the question every poll asks: a poll that launches nothing must leave that date
+        # alone, otherwise output written between this poll's look and its time stamp is never seen (seed C13r8)
+        ll = this.lastLaunched
+        if not executed:
+            unchanged = Eq(ll.secs, st.last_launched) if isinstance(ll, TimeVal) else (ll == mk_time(c, st.last_launched))
+            cl.append(('a-poll-that-launches-nothing-keeps-the-date-of-the-last-launch', unchanged))
         succeeded = And(executed, Eq(st.rc, 0)) if executed else False
         launch_ok = executed and 'taskGenerator.raises' in c.choices and c.choices['taskGenerator.raises'] == 0
         if launch_ok:
